@@ -171,6 +171,13 @@ func (r *Run) buildTool(name, pkg string) (string, error) {
 	return out, nil
 }
 
+func confirmTimeout(t int) int {
+	if t > 600 {
+		return 600
+	}
+	return t
+}
+
 // headTail keeps the first and the last n bytes of a child's output (the cause of a fatal
 // error is at its head, the goroutine that was running at its tail).
 func headTail(b []byte, n int) string {
@@ -295,6 +302,8 @@ type Crash struct {
 	Cause string
 	// NotRepeated: the journalled case, run again alone in a fresh child, completed
 	NotRepeated bool
+	// Confirmed: the journalled case, run again alone, died again
+	Confirmed bool
 }
 
 // runShards runs bin as n children and merges their output.
@@ -345,18 +354,27 @@ func (r *Run) runShards(bin string, n int, timeoutSec int, extraArgs []string, e
 				// a violation; one that repeats is a violation.
 				if cr.Case != "" && !cr.Timeout && r.Only == "" {
 					res2 := res + ".confirm"
-					args2 := []string{"-s", "QUIT", fmt.Sprint(timeoutSec), bin, "-prop", r.Prop, "-tier", r.Tier, "-seed", fmt.Sprint(r.Seed),
+					args2 := []string{"-s", "QUIT", fmt.Sprint(confirmTimeout(timeoutSec)), bin, "-prop", r.Prop, "-tier", r.Tier, "-seed", fmt.Sprint(r.Seed),
 						"-shard", "0", "-nshards", "1", "-out", res2, "-journal", jr + ".confirm", "-only", cr.Case}
 					args2 = append(args2, extraArgs...)
-					c2 := exec.Command("timeout", args2...)
+					// alone and under an address-space limit of 12 GiB: a case that exhausts memory by
+					// itself dies here with the Go runtime's own message instead of taking the machine down
+					sh := "ulimit -v 12582912; exec timeout \"$@\""
+					c2 := exec.Command("sh", append([]string{"-c", sh, "sh"}, args2...)...)
 					c2.Dir = r.Work
 					c2.Env = append(append([]string{}, r.Env...), extraEnv...)
 					out2, err2 := c2.CombinedOutput()
 					b2, _ := os.ReadFile(res2)
-					if err2 == nil && bytes.Contains(b2, []byte(`"t":"done"`)) {
+					switch {
+					case err2 == nil && bytes.Contains(b2, []byte(`"t":"done"`)):
 						cr.NotRepeated = true
-					} else if err2 != nil {
-						cr.Output += "\n--- the case run again alone died again (" + err2.Error() + "): " + headTail(out2, 1500)
+					case err2 != nil:
+						if ee, ok := err2.(*exec.ExitError); ok && ee.ExitCode() == 124 {
+							cr.Timeout = true
+						} else {
+							cr.Confirmed = true
+							cr.Output += "\n--- the case run again alone (fresh process, 12 GiB address space) died again (" + err2.Error() + "; " + crashCause(out2) + "):\n" + headTail(out2, 1500)
+						}
 					}
 					os.Remove(res2)
 					os.Remove(jr + ".confirm")
